@@ -244,6 +244,11 @@ func checkGo(w *World, r *Report, parent *ssa.Function, g *ssa.Go) {
 				}
 				sv := storeOf(cell)
 				if sv == nil {
+					// assigned more than once (a parameter that is reassigned and then captured):
+					// when every store dominates the go statement, the last of them is the value
+					sv = lastStoreBefore(cell, g.Block())
+				}
+				if sv == nil {
 					return cell
 				}
 				v = sv
@@ -328,6 +333,34 @@ func checkGo(w *World, r *Report, parent *ssa.Function, g *ssa.Go) {
 							}
 						}
 					}
+				}
+			}
+		}
+		// or: the last goroutine takes the rest - `if i == n-1 { end = N }` with n the second result
+		// of the call whose first result is P (clause (d) shows the loop runs i = 0..n-1 with that n,
+		// and n = ceil(N/P) makes (n-1)*P < N <= n*P)
+		if !okCond {
+			for _, pred := range phi.Block().Preds {
+				idom := pred
+				for k := 0; k < 2 && idom != nil && !okCond; k++ {
+					if iff, ok := idom.Instrs[len(idom.Instrs)-1].(*ssa.If); ok {
+						if bo, ok := iff.Cond.(*ssa.BinOp); ok && bo.Op == token.EQL && res(bo.X) == ssa.Value(loopPhi) {
+							if sub, ok := res(bo.Y).(*ssa.BinOp); ok && sub.Op == token.SUB {
+								one, isC := constInt(sub.Y)
+								cx, isEx := res(sub.X).(*ssa.Extract)
+								px, isPx := pv.(*ssa.Extract)
+								if isC && one == 1 && isEx && isPx && cx.Index == 1 && px.Index == 0 && cx.Tuple == px.Tuple {
+									tb := iff.Block().Succs[0]
+									for pi, pr := range phi.Block().Preds {
+										if pr == tb && phi.Edges[pi] == nvEdge && iff.Block().Succs[1] == phi.Block() {
+											okCond = true
+										}
+									}
+								}
+							}
+						}
+					}
+					idom = idom.Idom()
 				}
 			}
 		}
@@ -428,7 +461,24 @@ func checkGo(w *World, r *Report, parent *ssa.Function, g *ssa.Go) {
 	// numGoroutines guard
 	guarded := false
 	for _, c := range cmpsAt(cpp.Block()) {
-		if c.Op == token.GEQ && c.X == stripConv(cpp.Call.Args[1]) {
+		sameCell := false
+		if la, ok := c.X.(*ssa.UnOp); ok && la.Op == token.MUL {
+			if lb, ok := stripConv(cpp.Call.Args[1]).(*ssa.UnOp); ok && lb.Op == token.MUL && la.X == lb.X {
+				if cell, ok := la.X.(*ssa.Alloc); ok {
+					// two loads of a parameter's cell (the parameter is captured by the worker): the same
+					// value when every store is the initial spill or comes after the call
+					sameCell = true
+					for _, ref := range referrersOf(cell) {
+						if st, ok := ref.(*ssa.Store); ok && st.Addr == ssa.Value(cell) {
+							if _, isPrm := st.Val.(*ssa.Parameter); !isPrm && !instrDominates(cpp, st) {
+								sameCell = false
+							}
+						}
+					}
+				}
+			}
+		}
+		if c.Op == token.GEQ && (c.X == stripConv(cpp.Call.Args[1]) || sameCell) {
 			if v, ok := constInt(c.Y); ok && v >= 1 {
 				guarded = true
 			}
@@ -460,7 +510,7 @@ func checkGo(w *World, r *Report, parent *ssa.Function, g *ssa.Go) {
 			}
 		}
 		for _, ref := range referrersOf(loopPhi) {
-			if bo, ok := ref.(*ssa.BinOp); ok && bo.Op == token.LSS && bo.X == ssa.Value(loopPhi) && cnt != nil && bo.Y == cnt {
+			if bo, ok := ref.(*ssa.BinOp); ok && bo.Op == token.LSS && bo.X == ssa.Value(loopPhi) && cnt != nil && (bo.Y == cnt || res(bo.Y) == cnt) {
 				boundOK = true
 			}
 		}
@@ -490,7 +540,7 @@ func checkGo(w *World, r *Report, parent *ssa.Function, g *ssa.Go) {
 		}
 		switch f.String() {
 		case "(*sync.WaitGroup).Add":
-			if cnt != nil && c.Common().Args[1] == cnt && instrDominates(c, g) {
+			if cnt != nil && (c.Common().Args[1] == cnt || res(c.Common().Args[1]) == cnt) && instrDominates(c, g) {
 				addOK = true
 			}
 		case "(*sync.WaitGroup).Wait":
@@ -836,4 +886,45 @@ func checkApplySlice(w *World, r *Report) {
 		}
 	}
 	r.floor("RACE", "kernel calls in applyMatrixSlice", n, 2)
+}
+
+// lastStoreBefore: for a local cell that is stored several times, the value of the store that
+// is the last one on every path to blk - every store's block must dominate blk, and the stores
+// must be totally ordered by dominance (same block: by position). nil if that cannot be shown.
+func lastStoreBefore(cell *ssa.Alloc, blk *ssa.BasicBlock) ssa.Value {
+	var stores []*ssa.Store
+	for _, ref := range referrersOf(cell) {
+		if st, ok := ref.(*ssa.Store); ok && st.Addr == ssa.Value(cell) {
+			if st.Block() == blk || !st.Block().Dominates(blk) {
+				return nil
+			}
+			stores = append(stores, st)
+		}
+	}
+	if len(stores) == 0 {
+		return nil
+	}
+	idx := func(st *ssa.Store) int {
+		for i, in := range st.Block().Instrs {
+			if in == ssa.Instruction(st) {
+				return i
+			}
+		}
+		return -1
+	}
+	last := stores[0]
+	for _, st := range stores[1:] {
+		switch {
+		case st.Block() == last.Block():
+			if idx(st) > idx(last) {
+				last = st
+			}
+		case last.Block().Dominates(st.Block()):
+			last = st
+		case st.Block().Dominates(last.Block()):
+		default:
+			return nil
+		}
+	}
+	return last.Val
 }
